@@ -11,6 +11,7 @@ deriving DecidableEq, Repr
 
 inductive Origin
   | serves (v : Nat) (p : Policy)
+  | alt (target : String) (p : Policy)   -- a page that is no JSON document, with a Link rel="alternate" type="application/ld+json" to `target`
   | fails                      -- non-200 status or transport error
 deriving DecidableEq, Repr
 
@@ -40,6 +41,7 @@ deriving Repr
 
 inductive Op
   | serve (u : String) (v : Nat) (p : Policy)
+  | serveAlt (u : String) (target : String) (p : Policy)
   | fail (u : String)
   | load (scheme : Scheme) (u : String) (gatewayURL : String)   -- gatewayURL: the HTTP URL an ipfs URL maps to
   | tick (n : Nat)
@@ -64,23 +66,50 @@ def cacheGet (cfg : Cfg) (s : St) (u : String) : Option (Nat × Int) :=
 def cacheSet (cfg : Cfg) (c : Cache) (u : String) (v : Nat) (exp : Int) : Cache :=
   if (cfg.embedded.lookup u).isSome then c else (u, (v, exp)) :: c.filter (·.1 ≠ u)
 
-/-- loadDocumentFromHTTP -/
-def loadHTTP (cfg : Cfg) (s : St) (u : String) : St × Res :=
-  let hit : Option (Nat × Int) := if cfg.cacheOn then cacheGet cfg s u else none
-  match hit with
-  | some (v, exp) =>
-    if exp > s.now then (s, .doc v) else fetch
-  | none => fetch
-where
-  fetch : St × Res :=
-    let s := { s with requests := s.requests + 1 }
-    match s.origin.lookup u with
-    | none => (s, .err)
-    | some .fails => (s, .err)
-    | some (.serves v p) =>
-      if p.storable && cfg.cacheOn then
-        ({ s with cache := cacheSet cfg s.cache u v (s.now + p.lifetime), received := (u, v, s.now, p.lifetime) :: s.received }, .doc v)
-      else (s, .doc v)
+/-- a cache hit that is still fresh -/
+def cacheHit (cfg : Cfg) (s : St) (u : String) : Option Nat :=
+  match (if cfg.cacheOn then cacheGet cfg s u else none) with
+  | some (v, exp) => if exp > s.now then some v else none
+  | none => none
+
+/-- what the end of loadDocumentFromHTTP does with a document obtained for `u` under the response's policy `p` -/
+def store (cfg : Cfg) (s : St) (u : String) (v : Nat) (p : Policy) : St :=
+  if p.storable && cfg.cacheOn then
+    { s with cache := cacheSet cfg s.cache u v (s.now + p.lifetime), received := (u, v, s.now, p.lifetime) :: s.received }
+  else s
+
+/-- one more request made -/
+def bump (s : St) : St := { s with requests := s.requests + 1 }
+
+@[simp] theorem bump_now (s : St) : (bump s).now = s.now := rfl
+@[simp] theorem bump_origin (s : St) : (bump s).origin = s.origin := rfl
+@[simp] theorem bump_received (s : St) : (bump s).received = s.received := rfl
+@[simp] theorem bump_cache (s : St) : (bump s).cache = s.cache := rfl
+@[simp] theorem bump_requests (s : St) : (bump s).requests = s.requests + 1 := rfl
+
+/-- the number of alternate links one load follows at most (Go: maxAlternateHops, fix D19) -/
+def maxHops : Nat := 10
+
+/-- loadDocumentFromHTTP. `hops` = alternate links that may still be followed. A page with an alternate link is
+    answered with whatever loading the target gives, and that document is stored under the page's URL with the
+    page's own policy (known finding F9). -/
+def loadHTTP (cfg : Cfg) : Nat → St → String → St × Res
+  | hops, s, u =>
+    match cacheHit cfg s u with
+    | some v => (s, .doc v)
+    | none =>
+      let s1 := bump s
+      match s.origin.lookup u with
+      | none => (s1, .err)
+      | some .fails => (s1, .err)
+      | some (.serves v p) => (store cfg s1 u v p, .doc v)
+      | some (.alt t p) =>
+        match hops with
+        | 0 => (s1, .err)
+        | h+1 =>
+          match loadHTTP cfg h s1 t with
+          | (s2, .doc v) => (store cfg s2 u v p, .doc v)
+          | (s2, _) => (s2, .err)
 
 /-- the IPFS node client: no cache at all -/
 def loadIPFSNode (s : St) (u : String) : St × Res :=
@@ -92,15 +121,16 @@ def loadIPFSNode (s : St) (u : String) : St × Res :=
 /-- LoadDocument: dispatch on the scheme; for ipfs the client wins over the gateway -/
 def load (cfg : Cfg) (s : St) (scheme : Scheme) (u gatewayURL : String) : St × Res :=
   match scheme with
-  | .http => loadHTTP cfg s u
+  | .http => loadHTTP cfg maxHops s u
   | .ipfs =>
     if cfg.ipfsClient then loadIPFSNode s u
-    else if cfg.ipfsGateway then loadHTTP cfg s gatewayURL
+    else if cfg.ipfsGateway then loadHTTP cfg maxHops s gatewayURL
     else (s, .err)
   | .other => (s, .err)
 
 def step (cfg : Cfg) (s : St) : Op → St × Res
   | .serve u v p => ({ s with origin := setOrigin s.origin u (.serves v p) }, .none_)
+  | .serveAlt u t p => ({ s with origin := setOrigin s.origin u (.alt t p) }, .none_)
   | .fail u => ({ s with origin := setOrigin s.origin u .fails }, .none_)
   | .tick n => ({ s with now := s.now + n }, .none_)
   | .load sc u g => load cfg s sc u g
